@@ -221,8 +221,8 @@ def capping(ctx):
 
 
 def _is_sum_of(t, d) -> bool:
-    a = m_arrcall(strip_wrappers(t), "sum")
-    return a is not None and strip_wrappers(a[0]) is d
+    a = common._sum_arg(strip_wrappers(t))        # jnp.sum(x) or x.sum()
+    return a is not None and strip_wrappers(a) is d
 
 
 def wmeans(ctx):
